@@ -406,12 +406,15 @@ fn shrink_in_process(
     repeats: u32,
     first: Outcome,
     known: &[Known],
+    hard_cap_s: u64,
 ) -> (Value, Violation) {
     let mut best = tree.current();
     let mut best_v = first.violation.unwrap();
     let start = Instant::now();
     let mut iters = 0u32;
-    'outer: while iters < 4000 && start.elapsed() < Duration::from_secs(120) {
+    // stay well inside the supervisor's per-case cap (which restarts when the failure is announced)
+    let budget = Duration::from_secs((hard_cap_s * 6 / 10).clamp(20, 120));
+    'outer: while iters < 4000 && start.elapsed() < budget {
         if !tree.simplify() {
             break;
         }
@@ -431,7 +434,7 @@ fn shrink_in_process(
             if !tree.complicate() {
                 break 'outer;
             }
-            if iters >= 4000 || start.elapsed() >= Duration::from_secs(120) {
+            if iters >= 4000 || start.elapsed() >= budget {
                 break 'outer;
             }
         }
@@ -482,9 +485,12 @@ pub fn worker_main(prop: &dyn Prop, tier: Tier, w: u64, nw: u64, from: u64, max_
                     json!({"idx": idx, "nt": o.nontrivial, "fp": format!("{fp:016x}"), "labels": o.labels, "ex": o.excluded, "known": true})
                 ));
             }
-            Some(_) => {
+            Some(v0) => {
+                // announce the unshrunk failure first: if shrinking is cut short (hard cap, crash of a candidate)
+                // the supervisor still has a violation to report
+                emit(&format!("F {}", json!({"idx": idx, "sig": v0.sig, "what": v0.what, "case": case})));
                 let (case, v) = match src {
-                    CaseSrc::Tree(tree) => shrink_in_process(prop, tree, plan.repeats, o, &known),
+                    CaseSrc::Tree(tree) => shrink_in_process(prop, tree, plan.repeats, o, &known, plan.hard_cap_s),
                     CaseSrc::Fixed(c) => (c, o.violation.unwrap()),
                 };
                 emit(&format!(
@@ -743,6 +749,8 @@ struct WorkerState {
     finished: bool,
     det: HangDetector,
     eof: bool,
+    /// a failure the worker announced and is still shrinking
+    pending: Option<Found>,
 }
 
 fn spawn_worker(prop: &str, tier: Tier, w: u64, nw: u64, from: u64, max_cases: u64, slot: usize, tx: &mpsc::Sender<Msg>) -> Child {
@@ -821,6 +829,7 @@ pub fn supervise(prop: &dyn Prop, tier: Tier) -> RunResult {
             finished: false,
             det: HangDetector::new(pid),
             eof: false,
+            pending: None,
         });
     }
 
@@ -889,6 +898,18 @@ pub fn supervise(prop: &dyn Prop, tier: Tier) -> RunResult {
                             e.0 += 1;
                         }
                     }
+                    "F" => {
+                        if let Ok(v) = serde_json::from_str::<Value>(rest) {
+                            let idx = v["idx"].as_u64().unwrap_or(0);
+                            ws.pending = Some(Found {
+                                idx,
+                                case: v.get("case").cloned(),
+                                v: Violation { what: v["what"].as_str().unwrap_or("").to_string(), sig: v["sig"].as_str().unwrap_or("").to_string() },
+                            });
+                            // the cap restarts for the shrinking phase
+                            ws.current = Some((idx, Instant::now()));
+                        }
+                    }
                     "V" => {
                         if let Ok(v) = serde_json::from_str::<Value>(rest) {
                             evaluations += 1;
@@ -936,7 +957,12 @@ pub fn supervise(prop: &dyn Prop, tier: Tier) -> RunResult {
             if workers[slot].eof {
                 let st = workers[slot].child.wait().expect("wait worker");
                 let ws = &mut workers[slot];
-                if let Some((idx, _)) = ws.current {
+                if let Some(p) = ws.pending.take() {
+                    // died while shrinking an announced failure: report it unshrunk
+                    evaluations += 1;
+                    found = Some(p);
+                    break 'main;
+                } else if let Some((idx, _)) = ws.current {
                     // died while running a case
                     found = Some(Found {
                         idx,
@@ -968,6 +994,12 @@ pub fn supervise(prop: &dyn Prop, tier: Tier) -> RunResult {
             if check_hang {
                 let ws = &mut workers[slot];
                 if let Some((idx, started)) = ws.current {
+                    if ws.pending.is_some() && (started.elapsed() > Duration::from_secs(plan.hard_cap_s) || (plan.hang_detect && started.elapsed() > Duration::from_millis(700) && ws.det.sample())) {
+                        // shrinking did not finish: report the announced failure as it is
+                        evaluations += 1;
+                        found = ws.pending.take();
+                        break 'main;
+                    }
                     if plan.hang_detect && started.elapsed() > Duration::from_millis(700) && ws.det.sample() {
                         let d = ws.det.describe();
                         found = Some(Found {
